@@ -311,6 +311,7 @@ func drawStalled(t *rapid.T) *workload {
 		}
 		w.Calls = append(w.Calls[:pos], append([]callPlan{c}, w.Calls[pos:]...)...)
 	}
+	addTwins(t, w, tUs/8, tUs/4, 0)
 	return w
 }
 
